@@ -38,3 +38,11 @@ add("C09",
     "allSubscriptions, rebuild() and replay clones judged against the flat map after every step; model compared with both twins.",
     "stated_not_proved: C09_refines lifted to the whole Registry state; C09_rebuild.",
     "Lean 4 proof (container refinement laws) + differential correspondence + flat-map oracle", "6/C09")
+add("C01",
+    "Proved so far: C01_asis_violates / C01_repaired_witness (kernel-checked: the pinned Provides factory loses a declared, non-redundant interface on the "
+    "three-step history of the statement, the repaired factory does not) and C02_implied (membership of every cached __sro__ = reachability, which is what "
+    "providedBy/implementedBy/flattened read); the declarations model (lazy class specifications, _classImplements_ordered, shared weak Provides cache, "
+    "descriptor paths) is compared with both twins on every run and every answer is judged by the sandwich specification (must-report / may-report), the "
+    "agreement of the four query forms and independence of unrelated objects.",
+    "stated_not_proved: C01_sandwich, C01_exact, C01_independent as invariants over all declaration histories (evaluated by the oracle on every answer).",
+    "Lean 4 proof (partial: witness + reachability of cached orders) + differential correspondence + sandwich oracle", "6/C01")
